@@ -386,7 +386,8 @@ class Histories(_C53):
              "two-byte character, write 2 three-byte characters, write empty bytes, reopen(), restart} x rotateLength "
              "in {1,2,3,6} x maxRotatedFiles in {None,1,2}; every history of length <= 7 over {write 1 byte, write 1 "
              "two-byte character, restart} x rotateLength {1,2} x maxRotatedFiles {None,1,2,3}; rotateLength None/0 "
-             "on length <= 3. thorough: length <= 5 over 9 operations (adds 1 four-byte character, mixed 4-character "
+             "on length <= 3; runs of 11..13 one-byte / one-character writes at rotateLength 1 with a restart or "
+             "reopen() at every position, maxRotatedFiles {None,9,10,11} (two-digit identifiers). thorough: length <= 5 over 9 operations (adds 1 four-byte character, mixed 4-character "
              "text), rotateLength {1,2,3,5,6,7}, maxRotatedFiles {None,1,2,3}; length <= 9 over the 3-operation "
              "alphabet; 30000 seeded random histories of up to 40 operations, rotateLength up to 64, observed after "
              "flush() after every step.")
@@ -434,6 +435,16 @@ class Histories(_C53):
                         c = (L, N, ops)
                         if emit(c):
                             yield c
+        # two-digit identifiers: runs of 11..13 small writes at rotateLength 1, a restart/reopen at every position
+        for total in (11, 12, 13):
+            for w in (W_B1, W_U2):
+                for ins in (None, "S", "R"):
+                    for p in ((None,) if ins is None else range(1, total)):
+                        ops = (w,) * total if ins is None else (w,) * p + (ins,) + (w,) * (total - p)
+                        for N in (None, 9, 10, 11):
+                            c = (1, N, ops)
+                            if emit(c):
+                                yield c
         if thorough:
             for _ in range(30000):
                 L, N, ops = _random_history(rng, 40, 64)
@@ -449,10 +460,10 @@ class CrashInRotate(_C53):
     title = ("the same histories with the process dying before / just after the k-th rename or remove issued by the "
              "LogFile (object abandoned, new LogFile on the same path, history continues): retained files in written "
              "order without overlap; without retention count nothing lost")
-    scope = ("quick: every history of length <= 5 over {write 1 byte, write 1 three-byte... (2 chars, 6 bytes) text, "
-             "restart} plus length <= 4 over {write 1 byte, write 5 bytes, write 1 two-byte character, reopen()} x "
+    scope = ("quick: every history of length <= 5 over {write 1 byte, write 2 three-byte characters, restart} plus length <= 4 over {write 1 byte, write 5 bytes, write 1 two-byte character, reopen()} x "
              "rotateLength {1,2} x maxRotatedFiles {None,1,2,3} x EVERY mutating file-system call of the history "
-             "(counted by a crash-free dry run of the real code) x crash before/after it; thorough: lengths 7 / 5, "
+             "(counted by a crash-free dry run of the real code) x crash before/after it; a run of 12 one-byte writes (with and without a restart in the middle) at "
+             "rotateLength 1, maxRotatedFiles {None,10}, every crash point; thorough: lengths 7 / 5, "
              "rotateLength {1,2,3}, plus 12000 seeded random histories (up to 30 operations, rotateLength up to 32) "
              "with one or two crash points, observed after every step.")
 
@@ -469,6 +480,10 @@ class CrashInRotate(_C53):
                     for L in Ls:
                         for N in (None, 1, 2, 3):
                             yield L, N, ops
+        # two-digit identifiers
+        for N in (None, 10):
+            yield 1, N, (W_B1,) * 12
+            yield 1, N, (W_B1,) * 6 + ("S",) + (W_B1,) * 6
 
     def cases(self, tier, rng):
         thorough = tier != "quick"
